@@ -179,6 +179,93 @@ Example C19_ex_frames :
   Some ([35], [Some ([79], [Some (4 # 1)%Q; Some (5 # 1)%Q; Some (6 # 1)%Q])]).
 Proof. vm_compute. reflexivity. Qed.
 
+(* ------------------------------------------------------------------ extraction histories
+   dump_config / _extract_frame of every engine as an operation on the worker directory
+   (model/CodecM.v section G): the output is opened for writing, so
+   extract files src k out = files[out := [frame k of src]]. *)
+
+(* one extraction: the output holds exactly one snapshot, frame k of the source as it was
+   before the operation (src = out included); no other file changes *)
+Theorem C19_extract_overwrites : forall (F : Type) (d : fx_dir F) src k out d',
+  fx_extract d src k out = Some d' ->
+  exists f, fx_frame d src k = Some f /\ fx_get d' out = Some [f] /\ fx_read d' out = Some f /\
+            forall n, n <> out -> fx_get d' n = fx_get d n.
+Proof. exact @fx_extract_spec. Qed.
+Print Assumptions C19_extract_overwrites.
+
+(* what the output file held before - nothing, a stale frame, a whole trajectory, junk - has
+   no influence on any file after the extraction *)
+Theorem C19_extract_old_content_irrelevant : forall (F : Type) (d : fx_dir F) src k out c n, src <> out ->
+  option_map (fun d' => fx_get d' n) (fx_extract (fx_set d out c) src k out) =
+  option_map (fun d' => fx_get d' n) (fx_extract d src k out).
+Proof. exact @fx_old_content_irrelevant. Qed.
+Print Assumptions C19_extract_old_content_irrelevant.
+
+(* any history (any number of extractions, any sources - earlier outputs included -, any
+   output names, any initial directory): the output of an extraction that no later
+   operation overwrote holds exactly the frame that extraction took, and the reader
+   (first snapshot) returns it *)
+Theorem C19_extract_history : forall (F : Type) pre o post (d d' : fx_dir F),
+  fx_run d (pre ++ o :: post) = Some d' -> Forall (fun o' => o_out o' <> o_out o) post ->
+  exists d1 f, fx_run d pre = Some d1 /\ fx_frame d1 (o_src o) (o_k o) = Some f /\
+               fx_get d' (o_out o) = Some [f] /\ fx_read d' (o_out o) = Some f.
+Proof. exact @fx_run_history. Qed.
+Print Assumptions C19_extract_history.
+
+(* in particular: after ANY sequence of extractions, reading the output of the last one
+   returns the frame of the last one *)
+Theorem C19_extract_history_last : forall (F : Type) ops o (d d' : fx_dir F),
+  fx_run d (ops ++ [o]) = Some d' ->
+  exists d1 f, fx_run d ops = Some d1 /\ fx_frame d1 (o_src o) (o_k o) = Some f /\
+               fx_get d' (o_out o) = Some [f] /\ fx_read d' (o_out o) = Some f.
+Proof. exact @fx_run_last. Qed.
+Print Assumptions C19_extract_history_last.
+
+(* files that no operation writes to (the source trajectories) keep their content *)
+Theorem C19_extract_history_untouched : forall (F : Type) ops (d d' : fx_dir F) n,
+  fx_run d ops = Some d' -> Forall (fun o => o_out o <> n) ops -> fx_get d' n = fx_get d n.
+Proof. exact @fx_run_untouched. Qed.
+Print Assumptions C19_extract_history_untouched.
+
+(* the per-operation trace the correspondence runner prints ends in the state of the run *)
+Theorem C19_extract_trace_is_run : forall (F : Type) ops (d d' : fx_dir F),
+  fx_run d ops = Some d' -> ops <> [] -> last (fx_trace d ops) None = Some d'.
+Proof. exact @fx_trace_run. Qed.
+Print Assumptions C19_extract_trace_is_run.
+
+(* opening the output for appending (the default of write_xyz_trajectory) is refuted by two
+   extractions into one name: the reader returns the frame of the first *)
+Theorem C19_extract_append_refuted : exists (d d' : fx_dir nat) o1 o2 f,
+  fx_run_append d [o1; o2] = Some d' /\ o_out o1 = o_out o2 /\
+  fx_frame d (o_src o2) (o_k o2) = Some f /\ fx_read d' (o_out o2) <> Some f /\
+  fx_get d' (o_out o2) <> Some [f].
+Proof. exact fx_append_refuted. Qed.
+Print Assumptions C19_extract_append_refuted.
+
+(* text level (extended xyz): the file written for frame f reads back as the one snapshot f;
+   with a stale frame in front of it the reader returns the stale one *)
+Theorem C19_extract_xyz_text : forall (L : Type) (count_of : L -> option nat) (f : xframe),
+  xf_ok count_of f ->
+  xyz_extract count_of (concat (map xf_block [f])) 0 = Some (xf_snap f) /\
+  read_snapshots count_of (concat (map xf_block [f])) = Some [xf_snap f].
+Proof. exact @fx_xyz_text. Qed.
+Print Assumptions C19_extract_xyz_text.
+
+Theorem C19_extract_xyz_text_appended : forall (L : Type) (count_of : L -> option nat) (stale f : xframe),
+  xf_ok count_of stale -> xf_ok count_of f ->
+  xyz_extract count_of (concat (map xf_block [stale; f])) 0 = Some (xf_snap stale).
+Proof. exact @fx_xyz_text_appended. Qed.
+Print Assumptions C19_extract_xyz_text_appended.
+
+(* a history of four extractions: into a file holding a stale trajectory, again into it,
+   from it into a new name, and once more into it *)
+Example C19_ex_history :
+  fx_run [(0, [10; 11; 12]); (2, [98; 99])]%nat [mkOp 0 2 2; mkOp 0 0 2; mkOp 2 0 3; mkOp 0 1 2] =
+  Some [(0, [10; 11; 12]); (2, [11]); (3, [10])]%nat /\
+  fx_run_append [(0, [10; 11; 12]); (2, [98; 99])]%nat [mkOp 0 2 2; mkOp 0 0 2; mkOp 2 0 3; mkOp 0 1 2] =
+  Some [(0, [10; 11; 12]); (2, [98; 99; 12; 10; 11]); (3, [98])]%nat.
+Proof. split; reflexivity. Qed.
+
 (* ------------------------------------------------------------------ swap_integer, TRR *)
 
 Theorem C19_swap_integer_bytes : forall x, swap_integer x = u_of_be (rev (be32 x)).
